@@ -1,8 +1,1603 @@
 package main
 
-import "os"
+// gen.go — the source-to-Coq translator (`harness gen --repo R --out coq/Generated.v`).
+//
+// It PARSES the escalator source under R (go/ast, go/parser; the escalator packages are not imported here) and the
+// documentation, and writes Coq definitions:
+//   - the constants the properties name (batch sizes, taint keys, annotation key, default group, default effect, lifecycles),
+//   - the json/yaml tag tables of NodeGroupOptions / AWSNodeGroupOptions,
+//   - the keys of the example YAML block of docs/configuration/nodegroup.md,
+//   - every checkThat(<cond>, …) of ValidateNodeGroup as a Gallina boolean over the record `cfg` of coq/Config.v.
+//
+// The expression grammar is deliberately small (see trExpr / trBody).  Anything outside it is an error that names the
+// offending source text and position: bin/check then reports a failed translation instead of using stale facts.
+// The output is a pure function of the parsed source (no time stamps, no map iteration).
 
-// generate rewrites gen/Generated.v from the repository source (constants, json tags, documented keys, validation rules).
+import (
+	"bytes"
+	"fmt"
+	"go/ast"
+	"go/parser"
+	"go/printer"
+	"go/token"
+	"math/big"
+	"os"
+	"path/filepath"
+	"reflect"
+	"sort"
+	"strconv"
+	"strings"
+
+	corev1 "k8s.io/api/core/v1"
+)
+
+// ---------------------------------------------------------------------------------------------------------------------
+// parsed packages
+
+type declRef struct {
+	file *ast.File
+	expr ast.Expr // constants / variables: the initialiser
+}
+
+type pkgInfo struct {
+	dir     string
+	consts  map[string]declRef
+	vars    map[string]declRef
+	funcs   map[string]*ast.FuncDecl // package-level functions
+	methods map[string]*ast.FuncDecl // "Recv.Name"
+	types   map[string]*ast.TypeSpec
+	fileOf  map[*ast.FuncDecl]*ast.File
+}
+
+type translator struct {
+	repo   string
+	module string
+	fset   *token.FileSet
+	pkgs   map[string]*pkgInfo // by directory
+}
+
+func newTranslator(repo string) (*translator, error) {
+	gm, err := os.ReadFile(filepath.Join(repo, "go.mod"))
+	if err != nil {
+		return nil, err
+	}
+	module := ""
+	for _, l := range strings.Split(string(gm), "\n") {
+		f := strings.Fields(l)
+		if len(f) == 2 && f[0] == "module" {
+			module = f[1]
+			break
+		}
+	}
+	if module == "" {
+		return nil, fmt.Errorf("no module line in %s/go.mod", repo)
+	}
+	return &translator{repo: repo, module: module, fset: token.NewFileSet(), pkgs: map[string]*pkgInfo{}}, nil
+}
+
+func (t *translator) loadPkg(rel string) (*pkgInfo, error) {
+	dir := filepath.Join(t.repo, rel)
+	if p, ok := t.pkgs[dir]; ok {
+		return p, nil
+	}
+	ents, err := os.ReadDir(dir)
+	if err != nil {
+		return nil, err
+	}
+	names := []string{}
+	for _, e := range ents {
+		n := e.Name()
+		if e.IsDir() || !strings.HasSuffix(n, ".go") || strings.HasSuffix(n, "_test.go") {
+			continue
+		}
+		names = append(names, n)
+	}
+	sort.Strings(names)
+	p := &pkgInfo{dir: dir, consts: map[string]declRef{}, vars: map[string]declRef{}, funcs: map[string]*ast.FuncDecl{},
+		methods: map[string]*ast.FuncDecl{}, types: map[string]*ast.TypeSpec{}, fileOf: map[*ast.FuncDecl]*ast.File{}}
+	for _, n := range names {
+		f, err := parser.ParseFile(t.fset, filepath.Join(dir, n), nil, parser.ParseComments)
+		if err != nil {
+			return nil, err
+		}
+		// files behind the harness-only build tag are not part of the program being verified
+		if hasVerifTag(f) {
+			continue
+		}
+		for _, d := range f.Decls {
+			switch d := d.(type) {
+			case *ast.GenDecl:
+				for _, s := range d.Specs {
+					switch s := s.(type) {
+					case *ast.ValueSpec:
+						for i, id := range s.Names {
+							var e ast.Expr
+							if i < len(s.Values) {
+								e = s.Values[i]
+							}
+							if d.Tok == token.CONST {
+								p.consts[id.Name] = declRef{f, e}
+							} else {
+								p.vars[id.Name] = declRef{f, e}
+							}
+						}
+					case *ast.TypeSpec:
+						p.types[s.Name.Name] = s
+					}
+				}
+			case *ast.FuncDecl:
+				p.fileOf[d] = f
+				if d.Recv == nil {
+					p.funcs[d.Name.Name] = d
+				} else if len(d.Recv.List) == 1 {
+					p.methods[recvTypeName(d.Recv.List[0].Type)+"."+d.Name.Name] = d
+				}
+			}
+		}
+	}
+	t.pkgs[dir] = p
+	return p, nil
+}
+
+func hasVerifTag(f *ast.File) bool {
+	for _, cg := range f.Comments {
+		if cg.Pos() > f.Package {
+			break
+		}
+		for _, c := range cg.List {
+			if strings.HasPrefix(c.Text, "//go:build") && strings.Contains(c.Text, "verif") {
+				return true
+			}
+		}
+	}
+	return false
+}
+
+func recvTypeName(e ast.Expr) string {
+	switch e := e.(type) {
+	case *ast.StarExpr:
+		return recvTypeName(e.X)
+	case *ast.Ident:
+		return e.Name
+	}
+	return "?"
+}
+
+// imports of a file: local name -> import path
+func fileImports(f *ast.File) map[string]string {
+	m := map[string]string{}
+	for _, im := range f.Imports {
+		path, _ := strconv.Unquote(im.Path.Value)
+		name := ""
+		if im.Name != nil {
+			name = im.Name.Name
+		} else {
+			name = path[strings.LastIndex(path, "/")+1:]
+			// k8s style: k8s.io/api/core/v1 has package name v1; .../kingpin/v2 has package name kingpin (not needed here)
+		}
+		m[name] = path
+	}
+	return m
+}
+
+func (t *translator) src(n ast.Node) string {
+	var b bytes.Buffer
+	printer.Fprint(&b, t.fset, n)
+	return strings.Join(strings.Fields(b.String()), " ")
+}
+
+func (t *translator) errAt(n ast.Node, format string, a ...interface{}) error {
+	pos := t.fset.Position(n.Pos())
+	rel, err := filepath.Rel(t.repo, pos.Filename)
+	if err != nil {
+		rel = pos.Filename
+	}
+	return fmt.Errorf("%s:%d: %s: `%s`", rel, pos.Line, fmt.Sprintf(format, a...), t.src(n))
+}
+
+// ---------------------------------------------------------------------------------------------------------------------
+// values of the little expression language
+
+type kind int
+
+const (
+	kInt kind = iota
+	kStr
+	kBool
+	kCfg // the NodeGroupOptions value being validated
+	kAws // its .AWS component
+	kErr // the error result of time.ParseDuration(<duration option>)
+	kNil
+	kMap // package-level map[string-like]bool literal
+)
+
+func (k kind) String() string {
+	return [...]string{"int", "string", "bool", "NodeGroupOptions", "AWSNodeGroupOptions", "error", "nil", "map"}[k]
+}
+
+type val struct {
+	k   kind
+	coq string   // Coq term (kInt: Z, kStr: string, kBool: bool, kMap: list (string*bool))
+	ci  *big.Int // constant int
+	cs  *string  // constant string
+	cb  *bool    // constant bool
+	dur string   // kStr: Coq term of the `dur` this string is the raw text of; kErr: the `dur` whose parse failed
+}
+
+func coqZ(i *big.Int) string {
+	if i.Sign() < 0 {
+		return "(" + i.String() + ")"
+	}
+	return i.String()
+}
+
+func coqString(s string) (string, error) {
+	for i := 0; i < len(s); i++ {
+		if s[i] < 0x20 || s[i] == 0x7f {
+			return "", fmt.Errorf("control character in string constant %q", s)
+		}
+	}
+	return `"` + strings.ReplaceAll(s, `"`, `""`) + `"%string`, nil
+}
+
+func intVal(i *big.Int) val  { return val{k: kInt, coq: coqZ(i), ci: i} }
+func boolVal(b bool) val     { return val{k: kBool, coq: strconv.FormatBool(b), cb: &b} }
+func strVal(s string) (val, error) {
+	c, err := coqString(s)
+	if err != nil {
+		return val{}, err
+	}
+	return val{k: kStr, coq: c, cs: &s}, nil
+}
+
+// fields of NodeGroupOptions / AWSNodeGroupOptions that the record `cfg` carries: Go field -> (projection, kind, Go type)
+type fieldMap struct {
+	proj   string
+	k      kind
+	isDur  bool
+	goType string
+}
+
+var cfgFields = map[string]fieldMap{
+	"Name":                               {"c_name", kStr, false, "string"},
+	"LabelKey":                           {"c_label_key", kStr, false, "string"},
+	"LabelValue":                         {"c_label_value", kStr, false, "string"},
+	"CloudProviderGroupName":             {"c_cloud_group", kStr, false, "string"},
+	"MinNodes":                           {"c_min", kInt, false, "int"},
+	"MaxNodes":                           {"c_max", kInt, false, "int"},
+	"TaintLowerCapacityThresholdPercent": {"c_lower", kInt, false, "int"},
+	"TaintUpperCapacityThresholdPercent": {"c_upper", kInt, false, "int"},
+	"ScaleUpThresholdPercent":            {"c_up", kInt, false, "int"},
+	"SlowNodeRemovalRate":                {"c_slow", kInt, false, "int"},
+	"FastNodeRemovalRate":                {"c_fast", kInt, false, "int"},
+	"SoftDeleteGracePeriod":              {"c_soft", kStr, true, "string"},
+	"HardDeleteGracePeriod":              {"c_hard", kStr, true, "string"},
+	"ScaleUpCoolDownPeriod":              {"c_cooldown", kStr, true, "string"},
+	"MaxNodeAge":                         {"c_max_node_age", kStr, true, "string"},
+	"TaintEffect":                        {"c_taint_effect", kStr, false, "v1.TaintEffect"},
+	"DryMode":                            {"c_dry", kBool, false, "bool"},
+	"ScaleOnStarve":                      {"c_starve", kBool, false, "bool"},
+	"AWS":                                {"", kAws, false, "AWSNodeGroupOptions"},
+}
+
+var awsFields = map[string]fieldMap{
+	"Lifecycle": {"c_lifecycle", kStr, false, "string"},
+}
+
+const (
+	optsType    = "NodeGroupOptions"
+	awsOptsType = "AWSNodeGroupOptions"
+)
+
+// constants of packages outside the repository that the grammar knows (values come from the libraries the harness is
+// compiled against, i.e. the versions pinned by the repository's go.sum)
+var timeUnits = map[string]int64{"Nanosecond": 1, "Microsecond": 1e3, "Millisecond": 1e6, "Second": 1e9, "Minute": 60e9, "Hour": 3600e9}
+
+var coreV1Strings = map[string]string{
+	"TaintEffectNoSchedule":       string(corev1.TaintEffectNoSchedule),
+	"TaintEffectPreferNoSchedule": string(corev1.TaintEffectPreferNoSchedule),
+	"TaintEffectNoExecute":        string(corev1.TaintEffectNoExecute),
+}
+
+type env struct {
+	pkg   *pkgInfo
+	file  *ast.File
+	vars  map[string]val
+	depth int
+}
+
+func (e *env) child(pkg *pkgInfo, file *ast.File) *env {
+	return &env{pkg: pkg, file: file, vars: map[string]val{}, depth: e.depth + 1}
+}
+
+func structField(ts *ast.TypeSpec, name string) (ast.Expr, bool) {
+	st, ok := ts.Type.(*ast.StructType)
+	if !ok {
+		return nil, false
+	}
+	for _, f := range st.Fields.List {
+		for _, id := range f.Names {
+			if id.Name == name {
+				return f.Type, true
+			}
+		}
+	}
+	return nil, false
+}
+
+func (t *translator) field(n ast.Node, pkg *pkgInfo, typeName string, table map[string]fieldMap, name string) (val, error) {
+	ts, ok := pkg.types[typeName]
+	if !ok {
+		return val{}, t.errAt(n, "type %s not found", typeName)
+	}
+	gt, ok := structField(ts, name)
+	if !ok {
+		return val{}, t.errAt(n, "%s has no field %s", typeName, name)
+	}
+	fm, ok := table[name]
+	if !ok {
+		return val{}, t.errAt(n, "field %s.%s is not carried by the Coq record cfg (outside the rule grammar)", typeName, name)
+	}
+	if got := t.src(gt); got != fm.goType {
+		return val{}, t.errAt(n, "field %s.%s has Go type %s, the Coq record expects %s", typeName, name, got, fm.goType)
+	}
+	switch fm.k {
+	case kAws:
+		return val{k: kAws}, nil
+	case kStr:
+		if fm.isDur {
+			return val{k: kStr, coq: "(d_raw (" + fm.proj + " c))", dur: "(" + fm.proj + " c)"}, nil
+		}
+		return val{k: kStr, coq: "(" + fm.proj + " c)"}, nil
+	default:
+		return val{k: fm.k, coq: "(" + fm.proj + " c)"}, nil
+	}
+}
+
+// resolve `pkgname.Ident` where pkgname is an import of the current file
+func (t *translator) pkgSelector(n *ast.SelectorExpr, path string, e *env) (val, error) {
+	name := n.Sel.Name
+	switch {
+	case path == "time":
+		if u, ok := timeUnits[name]; ok {
+			return intVal(big.NewInt(u)), nil
+		}
+	case path == "k8s.io/api/core/v1":
+		if s, ok := coreV1Strings[name]; ok {
+			return strVal(s)
+		}
+	case path == t.module || strings.HasPrefix(path, t.module+"/"):
+		p, err := t.loadPkg(strings.TrimPrefix(strings.TrimPrefix(path, t.module), "/"))
+		if err != nil {
+			return val{}, t.errAt(n, "cannot load package %s: %v", path, err)
+		}
+		return t.pkgLevel(n, p, name, e)
+	}
+	return val{}, t.errAt(n, "identifier of package %s outside the rule grammar", path)
+}
+
+// a package-level constant or (map literal) variable
+func (t *translator) pkgLevel(n ast.Node, p *pkgInfo, name string, e *env) (val, error) {
+	if e.depth > 20 {
+		return val{}, t.errAt(n, "definitions nested too deeply")
+	}
+	if d, ok := p.consts[name]; ok {
+		if d.expr == nil {
+			return val{}, t.errAt(n, "constant %s without initialiser (iota) outside the rule grammar", name)
+		}
+		v, err := t.trExpr(d.expr, e.child(p, d.file))
+		if err != nil {
+			return val{}, err
+		}
+		if v.ci == nil && v.cs == nil && v.cb == nil {
+			return val{}, t.errAt(d.expr, "constant %s is not a literal constant expression", name)
+		}
+		return v, nil
+	}
+	if d, ok := p.vars[name]; ok {
+		cl, ok := d.expr.(*ast.CompositeLit)
+		if !ok {
+			return val{}, t.errAt(n, "package variable %s is not a map literal (outside the rule grammar)", name)
+		}
+		mt, ok := cl.Type.(*ast.MapType)
+		if !ok || t.src(mt.Value) != "bool" {
+			return val{}, t.errAt(cl, "package variable %s is not a map[…]bool literal (outside the rule grammar)", name)
+		}
+		ce := e.child(p, d.file)
+		items := []string{}
+		for _, el := range cl.Elts {
+			kv, ok := el.(*ast.KeyValueExpr)
+			if !ok {
+				return val{}, t.errAt(el, "map element without key")
+			}
+			k, err := t.trExpr(kv.Key, ce)
+			if err != nil {
+				return val{}, err
+			}
+			v, err := t.trExpr(kv.Value, ce)
+			if err != nil {
+				return val{}, err
+			}
+			if k.cs == nil || v.cb == nil {
+				return val{}, t.errAt(kv, "map entry is not (constant string, constant bool)")
+			}
+			items = append(items, fmt.Sprintf("(%s, %s)", k.coq, v.coq))
+		}
+		return val{k: kMap, coq: "[" + strings.Join(items, "; ") + "]"}, nil
+	}
+	return val{}, t.errAt(n, "%s is neither a constant nor a map literal of its package (outside the rule grammar)", name)
+}
+
+func cmpCoq(op token.Token, a, b string) string {
+	switch op {
+	case token.LSS:
+		return "(" + a + " <? " + b + ")"
+	case token.LEQ:
+		return "(" + a + " <=? " + b + ")"
+	case token.GTR:
+		return "(" + b + " <? " + a + ")"
+	case token.GEQ:
+		return "(" + b + " <=? " + a + ")"
+	case token.EQL:
+		return "(" + a + " =? " + b + ")"
+	case token.NEQ:
+		return "(negb (" + a + " =? " + b + "))"
+	}
+	return "?"
+}
+
+func cmpConst(op token.Token, c int) bool {
+	switch op {
+	case token.LSS:
+		return c < 0
+	case token.LEQ:
+		return c <= 0
+	case token.GTR:
+		return c > 0
+	case token.GEQ:
+		return c >= 0
+	case token.EQL:
+		return c == 0
+	case token.NEQ:
+		return c != 0
+	}
+	return false
+}
+
+func notVal(v val) val {
+	if v.cb != nil {
+		return boolVal(!*v.cb)
+	}
+	return val{k: kBool, coq: "(negb " + v.coq + ")"}
+}
+
+func andVal(a, b val) val {
+	switch { // sub-expressions of the grammar are total and pure, so constants can be folded away
+	case a.cb != nil && *a.cb:
+		return b
+	case b.cb != nil && *b.cb:
+		return a
+	case a.cb != nil || b.cb != nil:
+		return boolVal(false)
+	}
+	return val{k: kBool, coq: "(" + a.coq + " && " + b.coq + ")"}
+}
+
+func orVal(a, b val) val {
+	switch {
+	case a.cb != nil && !*a.cb:
+		return b
+	case b.cb != nil && !*b.cb:
+		return a
+	case a.cb != nil || b.cb != nil:
+		return boolVal(true)
+	}
+	return val{k: kBool, coq: "(" + a.coq + " || " + b.coq + ")"}
+}
+
+// if c then a else b, on booleans, written with connectives only (keeps the generated rules inside what lia/ZifyBool read)
+func iteBool(c, a, b val) val {
+	switch {
+	case c.cb != nil && *c.cb:
+		return a
+	case c.cb != nil:
+		return b
+	case a.cb != nil && *a.cb:
+		return orVal(c, b)
+	case a.cb != nil:
+		return andVal(notVal(c), b)
+	case b.cb != nil && *b.cb:
+		return val{k: kBool, coq: "(implb " + c.coq + " " + a.coq + ")"}
+	case b.cb != nil:
+		return andVal(c, a)
+	}
+	return orVal(andVal(c, a), andVal(notVal(c), b))
+}
+
+func (t *translator) trExpr(x ast.Expr, e *env) (val, error) {
+	switch x := x.(type) {
+	case *ast.ParenExpr:
+		return t.trExpr(x.X, e)
+
+	case *ast.BasicLit:
+		switch x.Kind {
+		case token.INT:
+			i, ok := new(big.Int).SetString(strings.ReplaceAll(x.Value, "_", ""), 0)
+			if !ok {
+				return val{}, t.errAt(x, "cannot read integer literal")
+			}
+			return intVal(i), nil
+		case token.STRING:
+			s, err := strconv.Unquote(x.Value)
+			if err != nil {
+				return val{}, t.errAt(x, "cannot read string literal")
+			}
+			v, err := strVal(s)
+			if err != nil {
+				return val{}, t.errAt(x, "%v", err)
+			}
+			return v, nil
+		}
+		return val{}, t.errAt(x, "literal kind outside the rule grammar")
+
+	case *ast.Ident:
+		if v, ok := e.vars[x.Name]; ok {
+			return v, nil
+		}
+		switch x.Name {
+		case "true":
+			return boolVal(true), nil
+		case "false":
+			return boolVal(false), nil
+		case "nil":
+			return val{k: kNil}, nil
+		}
+		return t.pkgLevel(x, e.pkg, x.Name, e)
+
+	case *ast.SelectorExpr:
+		if id, ok := x.X.(*ast.Ident); ok {
+			if _, shadow := e.vars[id.Name]; !shadow {
+				if path, ok := fileImports(e.file)[id.Name]; ok {
+					return t.pkgSelector(x, path, e)
+				}
+			}
+		}
+		base, err := t.trExpr(x.X, e)
+		if err != nil {
+			return val{}, err
+		}
+		ctrl, err := t.loadPkg("pkg/controller")
+		if err != nil {
+			return val{}, err
+		}
+		switch base.k {
+		case kCfg:
+			return t.field(x, ctrl, optsType, cfgFields, x.Sel.Name)
+		case kAws:
+			return t.field(x, ctrl, awsOptsType, awsFields, x.Sel.Name)
+		}
+		return val{}, t.errAt(x, "selector on a %v outside the rule grammar", base.k)
+
+	case *ast.UnaryExpr:
+		v, err := t.trExpr(x.X, e)
+		if err != nil {
+			return val{}, err
+		}
+		switch {
+		case x.Op == token.NOT && v.k == kBool:
+			return notVal(v), nil
+		case x.Op == token.SUB && v.k == kInt && v.ci != nil:
+			return intVal(new(big.Int).Neg(v.ci)), nil
+		case x.Op == token.ADD && v.k == kInt:
+			return v, nil
+		}
+		return val{}, t.errAt(x, "unary operator %s on %v outside the rule grammar", x.Op, v.k)
+
+	case *ast.BinaryExpr:
+		a, err := t.trExpr(x.X, e)
+		if err != nil {
+			return val{}, err
+		}
+		b, err := t.trExpr(x.Y, e)
+		if err != nil {
+			return val{}, err
+		}
+		switch x.Op {
+		case token.LAND, token.LOR:
+			if a.k != kBool || b.k != kBool {
+				return val{}, t.errAt(x, "%s on %v, %v", x.Op, a.k, b.k)
+			}
+			// Go evaluates left to right and short-circuits; every sub-expression of the grammar is total and
+			// side-effect free, so the strict Coq connective has the same value.
+			if x.Op == token.LAND {
+				return andVal(a, b), nil
+			}
+			return orVal(a, b), nil
+		case token.LSS, token.LEQ, token.GTR, token.GEQ, token.EQL, token.NEQ:
+			switch {
+			case a.k == kInt && b.k == kInt:
+				if a.ci != nil && b.ci != nil {
+					return boolVal(cmpConst(x.Op, a.ci.Cmp(b.ci))), nil
+				}
+				return val{k: kBool, coq: cmpCoq(x.Op, a.coq, b.coq)}, nil
+			case a.k == kStr && b.k == kStr && (x.Op == token.EQL || x.Op == token.NEQ):
+				if a.cs != nil && b.cs != nil {
+					return boolVal((*a.cs == *b.cs) == (x.Op == token.EQL)), nil
+				}
+				r := val{k: kBool, coq: "(String.eqb " + a.coq + " " + b.coq + ")"}
+				if x.Op == token.NEQ {
+					r = notVal(r)
+				}
+				return r, nil
+			case a.k == kBool && b.k == kBool && (x.Op == token.EQL || x.Op == token.NEQ):
+				r := val{k: kBool, coq: "(Bool.eqb " + a.coq + " " + b.coq + ")"}
+				if x.Op == token.NEQ {
+					r = notVal(r)
+				}
+				return r, nil
+			case (a.k == kErr && b.k == kNil || a.k == kNil && b.k == kErr) && (x.Op == token.EQL || x.Op == token.NEQ):
+				d := a.dur + b.dur
+				r := val{k: kBool, coq: "(dur_parse_ok " + d + ")"} // err == nil
+				if x.Op == token.NEQ {
+					r = notVal(r)
+				}
+				return r, nil
+			}
+			return val{}, t.errAt(x, "comparison %s between %v and %v outside the rule grammar", x.Op, a.k, b.k)
+		case token.ADD, token.SUB, token.MUL:
+			if a.k == kInt && b.k == kInt && a.ci != nil && b.ci != nil {
+				r := new(big.Int)
+				switch x.Op {
+				case token.ADD:
+					r.Add(a.ci, b.ci)
+				case token.SUB:
+					r.Sub(a.ci, b.ci)
+				case token.MUL:
+					r.Mul(a.ci, b.ci)
+				}
+				if !r.IsInt64() {
+					return val{}, t.errAt(x, "constant overflows int64")
+				}
+				return intVal(r), nil
+			}
+			if a.k == kStr && b.k == kStr && x.Op == token.ADD && a.cs != nil && b.cs != nil {
+				return strVal(*a.cs + *b.cs)
+			}
+			return val{}, t.errAt(x, "arithmetic on non-constant operands outside the rule grammar (Go integers wrap, Coq's do not)")
+		}
+		return val{}, t.errAt(x, "binary operator %s outside the rule grammar", x.Op)
+
+	case *ast.IndexExpr:
+		m, err := t.trExpr(x.X, e)
+		if err != nil {
+			return val{}, err
+		}
+		i, err := t.trExpr(x.Index, e)
+		if err != nil {
+			return val{}, err
+		}
+		if m.k != kMap || i.k != kStr {
+			return val{}, t.errAt(x, "index of %v by %v outside the rule grammar", m.k, i.k)
+		}
+		return val{k: kBool, coq: "(str_map_get " + m.coq + " " + i.coq + ")"}, nil
+
+	case *ast.CallExpr:
+		return t.trCall(x, e)
+	}
+	return val{}, t.errAt(x, "expression outside the rule grammar")
+}
+
+func (t *translator) trArgs(args []ast.Expr, e *env) ([]val, error) {
+	out := []val{}
+	for _, a := range args {
+		v, err := t.trExpr(a, e)
+		if err != nil {
+			return nil, err
+		}
+		out = append(out, v)
+	}
+	return out, nil
+}
+
+// Go type of a parameter -> the kind the argument must have
+func paramKind(typ string) (kind, bool) {
+	switch typ {
+	case "string", "v1.TaintEffect", "apiv1.TaintEffect", "corev1.TaintEffect":
+		return kStr, true
+	case "int", "int64", "time.Duration":
+		return kInt, true
+	case "bool":
+		return kBool, true
+	case optsType, "*" + optsType:
+		return kCfg, true
+	case awsOptsType, "*" + awsOptsType:
+		return kAws, true
+	}
+	return 0, false
+}
+
+func (t *translator) trCall(x *ast.CallExpr, e *env) (val, error) {
+	if x.Ellipsis != token.NoPos {
+		return val{}, t.errAt(x, "variadic call outside the rule grammar")
+	}
+	switch fn := x.Fun.(type) {
+	case *ast.Ident:
+		if _, shadow := e.vars[fn.Name]; shadow {
+			return val{}, t.errAt(x, "call of a local value outside the rule grammar")
+		}
+		if fn.Name == "len" && len(x.Args) == 1 {
+			a, err := t.trExpr(x.Args[0], e)
+			if err != nil {
+				return val{}, err
+			}
+			if a.k != kStr {
+				return val{}, t.errAt(x, "len of %v outside the rule grammar", a.k)
+			}
+			if a.cs != nil {
+				return intVal(big.NewInt(int64(len(*a.cs)))), nil
+			}
+			return val{k: kInt, coq: "(slen " + a.coq + ")"}, nil
+		}
+		if (fn.Name == "int" || fn.Name == "int64") && len(x.Args) == 1 { // conversion between 64-bit integer types: identity
+			a, err := t.trExpr(x.Args[0], e)
+			if err != nil {
+				return val{}, err
+			}
+			if a.k == kInt {
+				return a, nil
+			}
+			return val{}, t.errAt(x, "conversion of %v to %s outside the rule grammar", a.k, fn.Name)
+		}
+		if fn.Name == "string" && len(x.Args) == 1 { // conversion of a string-like value
+			a, err := t.trExpr(x.Args[0], e)
+			if err != nil {
+				return val{}, err
+			}
+			if a.k == kStr {
+				return a, nil
+			}
+			return val{}, t.errAt(x, "conversion of %v to string outside the rule grammar", a.k)
+		}
+		fd, ok := e.pkg.funcs[fn.Name]
+		if !ok {
+			return val{}, t.errAt(x, "call of %s outside the rule grammar (not a function of this package)", fn.Name)
+		}
+		args, err := t.trArgs(x.Args, e)
+		if err != nil {
+			return val{}, err
+		}
+		return t.inline(x, e.pkg, fd, nil, args, e)
+
+	case *ast.SelectorExpr:
+		if id, ok := fn.X.(*ast.Ident); ok {
+			if _, shadow := e.vars[id.Name]; !shadow {
+				if path, ok := fileImports(e.file)[id.Name]; ok {
+					if path == "time" && fn.Sel.Name == "Duration" && len(x.Args) == 1 { // conversion int -> time.Duration: identity
+						a, err := t.trExpr(x.Args[0], e)
+						if err != nil {
+							return val{}, err
+						}
+						if a.k == kInt {
+							return a, nil
+						}
+						return val{}, t.errAt(x, "conversion of %v to time.Duration outside the rule grammar", a.k)
+					}
+					if path == "time" && fn.Sel.Name == "ParseDuration" {
+						return val{}, t.errAt(x, "time.ParseDuration may only appear as `d, err := time.ParseDuration(<duration option>)`")
+					}
+					if path == t.module || strings.HasPrefix(path, t.module+"/") {
+						p, err := t.loadPkg(strings.TrimPrefix(strings.TrimPrefix(path, t.module), "/"))
+						if err != nil {
+							return val{}, t.errAt(x, "cannot load package %s: %v", path, err)
+						}
+						if fd, ok := p.funcs[fn.Sel.Name]; ok {
+							args, err := t.trArgs(x.Args, e)
+							if err != nil {
+								return val{}, err
+							}
+							return t.inline(x, p, fd, nil, args, e)
+						}
+					}
+					return val{}, t.errAt(x, "call of %s.%s outside the rule grammar", path, fn.Sel.Name)
+				}
+			}
+		}
+		recv, err := t.trExpr(fn.X, e)
+		if err != nil {
+			return val{}, err
+		}
+		if recv.k != kCfg {
+			return val{}, t.errAt(x, "method call on a %v outside the rule grammar", recv.k)
+		}
+		ctrl, err := t.loadPkg("pkg/controller")
+		if err != nil {
+			return val{}, err
+		}
+		md, ok := ctrl.methods[optsType+"."+fn.Sel.Name]
+		if !ok {
+			return val{}, t.errAt(x, "%s has no method %s", optsType, fn.Sel.Name)
+		}
+		if len(x.Args) == 0 {
+			if f, ok := t.durationAccessor(md); ok {
+				fv, err := t.field(x, ctrl, optsType, cfgFields, f)
+				if err != nil {
+					return val{}, err
+				}
+				if fv.dur == "" {
+					return val{}, t.errAt(x, "accessor %s parses field %s, which is not a duration option of cfg", fn.Sel.Name, f)
+				}
+				return val{k: kInt, coq: "(dur_value " + fv.dur + ")"}, nil
+			}
+		}
+		args, err := t.trArgs(x.Args, e)
+		if err != nil {
+			return val{}, err
+		}
+		v, err := t.inline(x, ctrl, md, &recv, args, e)
+		if err != nil {
+			return val{}, fmt.Errorf("%v [while inlining method %s, which is neither in the statement grammar nor of the recognised lazily-caching duration-accessor shape `if n.cache == 0 { d, err := time.ParseDuration(n.F); if err != nil { return 0 }; n.cache = d }; return n.cache`]", err, fn.Sel.Name)
+		}
+		return v, nil
+	}
+	return val{}, t.errAt(x, "call outside the rule grammar")
+}
+
+// inline a function or method whose body is inside the statement grammar of trBody
+func (t *translator) inline(call ast.Node, p *pkgInfo, fd *ast.FuncDecl, recv *val, args []val, e *env) (val, error) {
+	if e.depth > 20 {
+		return val{}, t.errAt(call, "calls nested too deeply (recursion?)")
+	}
+	if fd.Body == nil {
+		return val{}, t.errAt(call, "function without body")
+	}
+	if fd.Type.Results == nil || len(fd.Type.Results.List) != 1 || len(fd.Type.Results.List[0].Names) > 1 {
+		return val{}, t.errAt(call, "function %s must have exactly one result to be part of a rule", fd.Name.Name)
+	}
+	ne := e.child(p, p.fileOf[fd])
+	if recv != nil && fd.Recv != nil && len(fd.Recv.List[0].Names) == 1 {
+		ne.vars[fd.Recv.List[0].Names[0].Name] = *recv
+	}
+	i := 0
+	for _, f := range fd.Type.Params.List {
+		if _, ok := f.Type.(*ast.Ellipsis); ok {
+			return val{}, t.errAt(call, "variadic function %s outside the rule grammar", fd.Name.Name)
+		}
+		want, ok := paramKind(t.src(f.Type))
+		if !ok {
+			return val{}, t.errAt(f.Type, "parameter type of %s outside the rule grammar", fd.Name.Name)
+		}
+		names := f.Names
+		if len(names) == 0 {
+			names = []*ast.Ident{ast.NewIdent("_")}
+		}
+		for _, id := range names {
+			if i >= len(args) {
+				return val{}, t.errAt(call, "too few arguments for %s", fd.Name.Name)
+			}
+			if args[i].k != want {
+				return val{}, t.errAt(call, "argument %d of %s is a %v, parameter is a %v", i+1, fd.Name.Name, args[i].k, want)
+			}
+			if id.Name != "_" {
+				ne.vars[id.Name] = args[i]
+			}
+			i++
+		}
+	}
+	if i != len(args) {
+		return val{}, t.errAt(call, "too many arguments for %s", fd.Name.Name)
+	}
+	v, ok, err := t.trBody(fd.Body.List, ne)
+	if err != nil {
+		return val{}, err
+	}
+	if !ok {
+		return val{}, t.errAt(fd.Body, "body of %s can fall off its end", fd.Name.Name)
+	}
+	return v, nil
+}
+
+// trBody translates a statement list made of
+//     if <cond> { … return e }            (no init; optional else block)
+//     d, err := time.ParseDuration(<duration option of the configuration>)
+//     return e
+// into one value.  ok=false means control can fall off the end of the list.
+func (t *translator) trBody(stmts []ast.Stmt, e *env) (val, bool, error) {
+	if len(stmts) == 0 {
+		return val{}, false, nil
+	}
+	switch s := stmts[0].(type) {
+	case *ast.ReturnStmt:
+		if len(s.Results) != 1 {
+			return val{}, false, t.errAt(s, "return with %d results outside the rule grammar", len(s.Results))
+		}
+		v, err := t.trExpr(s.Results[0], e)
+		return v, true, err
+
+	case *ast.AssignStmt:
+		if s.Tok == token.DEFINE && len(s.Lhs) == 2 && len(s.Rhs) == 1 {
+			if call, ok := s.Rhs[0].(*ast.CallExpr); ok && len(call.Args) == 1 {
+				if sel, ok := call.Fun.(*ast.SelectorExpr); ok && sel.Sel.Name == "ParseDuration" {
+					if id, ok := sel.X.(*ast.Ident); ok && fileImports(e.file)[id.Name] == "time" {
+						a, err := t.trExpr(call.Args[0], e)
+						if err != nil {
+							return val{}, false, err
+						}
+						if a.k != kStr || a.dur == "" {
+							return val{}, false, t.errAt(s, "time.ParseDuration of something that is not one of the duration options (no parse result available in the model)")
+						}
+						ne := *e
+						ne.vars = map[string]val{}
+						for k, v := range e.vars {
+							ne.vars[k] = v
+						}
+						l0, ok0 := s.Lhs[0].(*ast.Ident)
+						l1, ok1 := s.Lhs[1].(*ast.Ident)
+						if !ok0 || !ok1 {
+							return val{}, false, t.errAt(s, "assignment targets outside the rule grammar")
+						}
+						if l0.Name != "_" {
+							ne.vars[l0.Name] = val{k: kInt, coq: "(dur_value " + a.dur + ")"} // ParseDuration returns 0 together with an error
+						}
+						if l1.Name != "_" {
+							ne.vars[l1.Name] = val{k: kErr, dur: a.dur}
+						}
+						return t.trBody(stmts[1:], &ne)
+					}
+				}
+			}
+		}
+		if ne, ok, err := t.localDefine(s, e); err != nil {
+			return val{}, false, err
+		} else if ok {
+			return t.trBody(stmts[1:], ne)
+		}
+		return val{}, false, t.errAt(s, "assignment outside the rule grammar")
+
+	case *ast.IfStmt:
+		if s.Init != nil {
+			return val{}, false, t.errAt(s, "if with an init statement outside the rule grammar")
+		}
+		c, err := t.trExpr(s.Cond, e)
+		if err != nil {
+			return val{}, false, err
+		}
+		if c.k != kBool {
+			return val{}, false, t.errAt(s.Cond, "condition is a %v", c.k)
+		}
+		rest := stmts[1:]
+		thenV, thenOK, err := t.trBody(append(append([]ast.Stmt{}, s.Body.List...), rest...), e)
+		if err != nil {
+			return val{}, false, err
+		}
+		var elseStmts []ast.Stmt
+		switch el := s.Else.(type) {
+		case nil:
+		case *ast.BlockStmt:
+			elseStmts = el.List
+		case *ast.IfStmt:
+			elseStmts = []ast.Stmt{el}
+		default:
+			return val{}, false, t.errAt(s, "else form outside the rule grammar")
+		}
+		elseV, elseOK, err := t.trBody(append(append([]ast.Stmt{}, elseStmts...), rest...), e)
+		if err != nil {
+			return val{}, false, err
+		}
+		if !thenOK || !elseOK {
+			return val{}, false, nil
+		}
+		if thenV.k != kBool || elseV.k != kBool {
+			if thenV.k == elseV.k && thenV.k == kInt {
+				return val{k: kInt, coq: "(if " + c.coq + " then " + thenV.coq + " else " + elseV.coq + ")"}, true, nil
+			}
+			return val{}, false, t.errAt(s, "branches of kinds %v / %v outside the rule grammar", thenV.k, elseV.k)
+		}
+		return iteBool(c, thenV, elseV), true, nil
+	}
+	return val{}, false, t.errAt(stmts[0], "statement outside the rule grammar")
+}
+
+// localDefine handles `x := <expression of the grammar>` (a fresh, never re-assigned name is what := of a new
+// identifier gives; re-assignment `=` stays outside the grammar).  The expression is substituted for the name.
+func (t *translator) localDefine(s *ast.AssignStmt, e *env) (*env, bool, error) {
+	if s.Tok != token.DEFINE || len(s.Lhs) != 1 || len(s.Rhs) != 1 {
+		return nil, false, nil
+	}
+	id, ok := s.Lhs[0].(*ast.Ident)
+	if !ok || id.Name == "_" {
+		return nil, false, nil
+	}
+	if _, exists := e.vars[id.Name]; exists {
+		return nil, false, t.errAt(s, "redefinition of %s outside the rule grammar", id.Name)
+	}
+	v, err := t.trExpr(s.Rhs[0], e)
+	if err != nil {
+		return nil, false, err
+	}
+	switch v.k {
+	case kInt, kStr, kBool, kCfg, kAws:
+	default:
+		return nil, false, t.errAt(s, "local definition of a %v outside the rule grammar", v.k)
+	}
+	ne := *e
+	ne.vars = map[string]val{}
+	for k, x := range e.vars {
+		ne.vars[k] = x
+	}
+	ne.vars[id.Name] = v
+	return &ne, true, nil
+}
+
+// durationAccessor recognises exactly the shape
+//     func (n *NodeGroupOptions) M() time.Duration {
+//         if n.cache == 0 {
+//             d, err := time.ParseDuration(n.F)
+//             if err != nil { return 0 }
+//             n.cache = d
+//         }
+//         return n.cache
+//     }
+// and returns F.  With a zero (or consistent) cache this is `dur_value` of Config.v.
+func (t *translator) durationAccessor(fd *ast.FuncDecl) (string, bool) {
+	if fd.Recv == nil || len(fd.Recv.List) != 1 || len(fd.Recv.List[0].Names) != 1 || fd.Body == nil || len(fd.Body.List) != 2 {
+		return "", false
+	}
+	if fd.Type.Params != nil && len(fd.Type.Params.List) != 0 {
+		return "", false
+	}
+	if fd.Type.Results == nil || len(fd.Type.Results.List) != 1 || t.src(fd.Type.Results.List[0].Type) != "time.Duration" {
+		return "", false
+	}
+	file := t.pkgs[filepath.Join(t.repo, "pkg/controller")].fileOf[fd]
+	if file == nil || fileImports(file)["time"] != "time" {
+		return "", false
+	}
+	n := fd.Recv.List[0].Names[0].Name
+	ifs, ok := fd.Body.List[0].(*ast.IfStmt)
+	if !ok || ifs.Init != nil || ifs.Else != nil || len(ifs.Body.List) != 3 {
+		return "", false
+	}
+	cond := t.src(ifs.Cond)
+	if !strings.HasPrefix(cond, n+".") || !strings.HasSuffix(cond, " == 0") {
+		return "", false
+	}
+	cache := strings.TrimSuffix(strings.TrimPrefix(cond, n+"."), " == 0")
+	if !token.IsIdentifier(cache) || ast.IsExported(cache) {
+		return "", false
+	}
+	as, ok := ifs.Body.List[0].(*ast.AssignStmt)
+	if !ok || as.Tok != token.DEFINE || len(as.Lhs) != 2 || len(as.Rhs) != 1 {
+		return "", false
+	}
+	d, err := t.src(as.Lhs[0]), t.src(as.Lhs[1])
+	rhs := t.src(as.Rhs[0])
+	if !strings.HasPrefix(rhs, "time.ParseDuration("+n+".") || !strings.HasSuffix(rhs, ")") {
+		return "", false
+	}
+	field := strings.TrimSuffix(strings.TrimPrefix(rhs, "time.ParseDuration("+n+"."), ")")
+	if !token.IsIdentifier(field) {
+		return "", false
+	}
+	if t.src(ifs.Body.List[1]) != "if "+err+" != nil { return 0 }" {
+		return "", false
+	}
+	if t.src(ifs.Body.List[2]) != n+"."+cache+" = "+d {
+		return "", false
+	}
+	if t.src(fd.Body.List[1]) != "return "+n+"."+cache {
+		return "", false
+	}
+	return field, true
+}
+
+// ---------------------------------------------------------------------------------------------------------------------
+// ValidateNodeGroup -> rule list
+
+type rule struct {
+	coq string
+	src string
+	msg string
+}
+
+func (t *translator) rules() ([]rule, error) {
+	ctrl, err := t.loadPkg("pkg/controller")
+	if err != nil {
+		return nil, err
+	}
+	fd, ok := ctrl.funcs["ValidateNodeGroup"]
+	if !ok || fd.Body == nil {
+		return nil, fmt.Errorf("pkg/controller: function ValidateNodeGroup not found")
+	}
+	if len(fd.Type.Params.List) != 1 || len(fd.Type.Params.List[0].Names) != 1 || t.src(fd.Type.Params.List[0].Type) != optsType {
+		return nil, t.errAt(fd.Type, "ValidateNodeGroup must take one %s by value", optsType)
+	}
+	if fd.Type.Results == nil || len(fd.Type.Results.List) != 1 || t.src(fd.Type.Results.List[0].Type) != "[]error" {
+		return nil, t.errAt(fd.Type, "ValidateNodeGroup must return []error")
+	}
+	e := &env{pkg: ctrl, file: ctrl.fileOf[fd], vars: map[string]val{}}
+	e.vars[fd.Type.Params.List[0].Names[0].Name] = val{k: kCfg}
+
+	body := fd.Body.List
+	if len(body) < 3 {
+		return nil, t.errAt(fd.Body, "ValidateNodeGroup: unexpected shape")
+	}
+	// var problems []error
+	problems := ""
+	if ds, ok := body[0].(*ast.DeclStmt); ok {
+		s := t.src(ds)
+		if strings.HasPrefix(s, "var ") && strings.HasSuffix(s, " []error") {
+			problems = strings.TrimSuffix(strings.TrimPrefix(s, "var "), " []error")
+		}
+	}
+	if !token.IsIdentifier(problems) {
+		return nil, t.errAt(body[0], "expected `var problems []error`")
+	}
+	// checkThat := func(cond bool, format string, output ...interface{}) { if !cond { problems = append(problems, …) } }
+	check := ""
+	if as, ok := body[1].(*ast.AssignStmt); ok && as.Tok == token.DEFINE && len(as.Lhs) == 1 && len(as.Rhs) == 1 {
+		if fl, ok := as.Rhs[0].(*ast.FuncLit); ok && len(fl.Type.Params.List) >= 1 && len(fl.Type.Params.List[0].Names) == 1 &&
+			t.src(fl.Type.Params.List[0].Type) == "bool" && fl.Type.Results == nil && len(fl.Body.List) == 1 {
+			cond := fl.Type.Params.List[0].Names[0].Name
+			if ifs, ok := fl.Body.List[0].(*ast.IfStmt); ok && ifs.Init == nil && ifs.Else == nil && t.src(ifs.Cond) == "!"+cond && len(ifs.Body.List) == 1 {
+				if strings.HasPrefix(t.src(ifs.Body.List[0]), problems+" = append("+problems+", ") {
+					check = t.src(as.Lhs[0])
+				}
+			}
+		}
+	}
+	if !token.IsIdentifier(check) {
+		return nil, t.errAt(body[1], "expected the checkThat closure (`if !cond { problems = append(problems, …) }`)")
+	}
+	e.vars[check] = val{k: kNil} // shadow: not callable as an expression
+	last := body[len(body)-1]
+	if t.src(last) != "return "+problems {
+		return nil, t.errAt(last, "expected `return %s`", problems)
+	}
+	var out []rule
+	var walk func(stmts []ast.Stmt, guards []val, e *env) error
+	walk = func(stmts []ast.Stmt, guards []val, e *env) error {
+		for _, s := range stmts {
+			switch s := s.(type) {
+			case *ast.ExprStmt:
+				call, ok := s.X.(*ast.CallExpr)
+				if !ok {
+					return t.errAt(s, "statement outside the rule grammar")
+				}
+				id, ok := call.Fun.(*ast.Ident)
+				if !ok || id.Name != check || len(call.Args) < 2 {
+					return t.errAt(s, "statement outside the rule grammar (only %s(cond, format, …) calls are rules)", check)
+				}
+				c, err := t.trExpr(call.Args[0], e)
+				if err != nil {
+					return err
+				}
+				if c.k != kBool {
+					return t.errAt(call.Args[0], "rule condition is a %v", c.k)
+				}
+				src := t.src(call.Args[0])
+				body := c
+				if len(guards) > 0 {
+					g := guards[0]
+					gs := []string{}
+					for i, x := range guards {
+						if i > 0 {
+							g = andVal(g, x)
+						}
+						gs = append(gs, x.dur)
+					}
+					body = iteBool(g, c, boolVal(true))
+					src = "if " + strings.Join(gs, " && ") + " { " + src + " }"
+				}
+				msg := ""
+				if bl, ok := call.Args[1].(*ast.BasicLit); ok && bl.Kind == token.STRING {
+					msg, _ = strconv.Unquote(bl.Value)
+				}
+				out = append(out, rule{coq: body.coq, src: src, msg: msg})
+			case *ast.AssignStmt:
+				ne, ok, err := t.localDefine(s, e)
+				if err != nil {
+					return err
+				}
+				if !ok {
+					return t.errAt(s, "assignment outside the rule grammar")
+				}
+				e = ne
+			case *ast.IfStmt:
+				if s.Init != nil {
+					return t.errAt(s, "guard with an init statement outside the rule grammar")
+				}
+				g, err := t.trExpr(s.Cond, e)
+				if err != nil {
+					return err
+				}
+				if g.k != kBool {
+					return t.errAt(s.Cond, "guard is a %v", g.k)
+				}
+				g.dur = t.src(s.Cond) // (re-used as the printable source of the guard)
+				if err := walk(s.Body.List, append(append([]val{}, guards...), g), e); err != nil {
+					return err
+				}
+				switch el := s.Else.(type) {
+				case nil:
+				case *ast.BlockStmt:
+					ng := notVal(g)
+					ng.dur = "!(" + g.dur + ")"
+					if err := walk(el.List, append(append([]val{}, guards...), ng), e); err != nil {
+						return err
+					}
+				default:
+					return t.errAt(s, "else-if chain outside the rule grammar")
+				}
+			default:
+				return t.errAt(s, "statement outside the rule grammar")
+			}
+		}
+		return nil
+	}
+	if err := walk(body[2:len(body)-1], nil, e); err != nil {
+		return nil, err
+	}
+	if len(out) == 0 {
+		return nil, t.errAt(fd.Body, "ValidateNodeGroup contains no rule")
+	}
+	return out, nil
+}
+
+// ---------------------------------------------------------------------------------------------------------------------
+// constants, tags, documented keys
+
+func (t *translator) constOf(rel, name string) (val, error) {
+	p, err := t.loadPkg(rel)
+	if err != nil {
+		return val{}, err
+	}
+	d, ok := p.consts[name]
+	if !ok || d.expr == nil {
+		return val{}, fmt.Errorf("%s: constant %s not found (or declared without a value)", rel, name)
+	}
+	return t.pkgLevel(d.expr, p, name, &env{pkg: p, file: d.file, vars: map[string]val{}})
+}
+
+// the effect AddToBeRemovedTaint uses when the option is empty:
+//     effect := <default>
+//     if len(taintEffect) > 0 { effect = taintEffect }
+func (t *translator) defaultTaintEffect() (val, error) {
+	p, err := t.loadPkg("pkg/k8s")
+	if err != nil {
+		return val{}, err
+	}
+	fd, ok := p.funcs["AddToBeRemovedTaint"]
+	if !ok || fd.Body == nil {
+		return val{}, fmt.Errorf("pkg/k8s: function AddToBeRemovedTaint not found")
+	}
+	var found *val
+	var ferr error
+	defs := map[string]ast.Expr{}
+	ast.Inspect(fd.Body, func(n ast.Node) bool {
+		switch s := n.(type) {
+		case *ast.AssignStmt:
+			if s.Tok == token.DEFINE && len(s.Lhs) == 1 && len(s.Rhs) == 1 {
+				if id, ok := s.Lhs[0].(*ast.Ident); ok {
+					defs[id.Name] = s.Rhs[0]
+				}
+			}
+		case *ast.IfStmt:
+			c := t.src(s.Cond)
+			if s.Init == nil && s.Else == nil && strings.HasPrefix(c, "len(") && strings.HasSuffix(c, ") > 0") && len(s.Body.List) == 1 {
+				param := strings.TrimSuffix(strings.TrimPrefix(c, "len("), ") > 0")
+				if as, ok := s.Body.List[0].(*ast.AssignStmt); ok && as.Tok == token.ASSIGN && len(as.Lhs) == 1 && len(as.Rhs) == 1 && t.src(as.Rhs[0]) == param {
+					if init, ok := defs[t.src(as.Lhs[0])]; ok && found == nil {
+						v, err := t.trExpr(init, &env{pkg: p, file: p.fileOf[fd], vars: map[string]val{}})
+						if err != nil {
+							ferr = err
+						} else {
+							found = &v
+						}
+					}
+				}
+			}
+		}
+		return true
+	})
+	if ferr != nil {
+		return val{}, ferr
+	}
+	if found == nil || found.cs == nil {
+		return val{}, t.errAt(fd.Name, "cannot find the default taint effect (`effect := <const>; if len(taintEffect) > 0 { effect = taintEffect }`)")
+	}
+	return *found, nil
+}
+
+type tagRow struct{ field, json, yaml string }
+
+func (t *translator) tags(typeName string) ([]tagRow, error) {
+	p, err := t.loadPkg("pkg/controller")
+	if err != nil {
+		return nil, err
+	}
+	ts, ok := p.types[typeName]
+	if !ok {
+		return nil, fmt.Errorf("pkg/controller: type %s not found", typeName)
+	}
+	st, ok := ts.Type.(*ast.StructType)
+	if !ok {
+		return nil, t.errAt(ts, "%s is not a struct", typeName)
+	}
+	rows := []tagRow{}
+	for _, f := range st.Fields.List {
+		for _, id := range f.Names {
+			if !id.IsExported() {
+				continue
+			}
+			tag := ""
+			if f.Tag != nil {
+				tag, _ = strconv.Unquote(f.Tag.Value)
+			}
+			st := reflect.StructTag(tag)
+			name := func(key string) string {
+				v, ok := st.Lookup(key)
+				if !ok {
+					return ""
+				}
+				n := strings.Split(v, ",")[0]
+				return n
+			}
+			j := name("json")
+			if _, has := st.Lookup("json"); !has || j == "" {
+				j = id.Name // encoding/json falls back to the field name
+			}
+			if j == "-" {
+				continue
+			}
+			rows = append(rows, tagRow{id.Name, j, name("yaml")})
+		}
+	}
+	return rows, nil
+}
+
+// keys of the first ```yaml block of the node-group documentation: those of the list item and those under `aws:`
+func (t *translator) documentedKeys() (top, aws []string, err error) {
+	path := filepath.Join(t.repo, "docs/configuration/nodegroup.md")
+	data, err := os.ReadFile(path)
+	if err != nil {
+		return nil, nil, err
+	}
+	lines := strings.Split(string(data), "\n")
+	in, done := false, false
+	itemIndent := -1
+	parent := ""
+	parentIndent := -1
+	for ln, raw := range lines {
+		l := strings.TrimRight(raw, " \r")
+		if !in {
+			if !done && strings.HasPrefix(strings.TrimSpace(l), "```yaml") {
+				in = true
+			}
+			continue
+		}
+		if strings.HasPrefix(strings.TrimSpace(l), "```") {
+			in, done = false, true
+			continue
+		}
+		if strings.TrimSpace(l) == "" || strings.HasPrefix(strings.TrimSpace(l), "#") {
+			continue
+		}
+		indent := len(l) - len(strings.TrimLeft(l, " "))
+		body := l[indent:]
+		if strings.HasPrefix(body, "- ") {
+			// (a second list item in the example would document its keys too: same indentation)
+			body = strings.TrimLeft(body[2:], " ")
+			indent = len(l) - len(body)
+			if itemIndent < 0 {
+				itemIndent = indent
+			}
+		}
+		colon := strings.Index(body, ":")
+		if colon <= 0 {
+			return nil, nil, fmt.Errorf("docs/configuration/nodegroup.md:%d: cannot read example line %q", ln+1, l)
+		}
+		key := strings.Trim(body[:colon], `"' `)
+		switch {
+		case itemIndent < 0:
+			// the wrapper key (node_groups:)
+			continue
+		case indent == itemIndent:
+			top = append(top, key)
+			parent, parentIndent = key, indent
+		case indent > itemIndent && parent == "aws" && indent > parentIndent:
+			aws = append(aws, key)
+		default:
+			return nil, nil, fmt.Errorf("docs/configuration/nodegroup.md:%d: key %q nested under %q is outside what the translator reads", ln+1, key, parent)
+		}
+	}
+	if !done || len(top) == 0 {
+		return nil, nil, fmt.Errorf("docs/configuration/nodegroup.md: no example ```yaml block found")
+	}
+	return dedup(top), dedup(aws), nil
+}
+
+func dedup(l []string) []string {
+	seen := map[string]bool{}
+	out := []string{}
+	for _, s := range l {
+		if !seen[s] {
+			seen[s] = true
+			out = append(out, s)
+		}
+	}
+	return out
+}
+
+// ---------------------------------------------------------------------------------------------------------------------
+// output
+
+func coqStrListSep(l []string, sep string) (string, error) {
+	items := []string{}
+	for _, s := range l {
+		c, err := coqString(s)
+		if err != nil {
+			return "", err
+		}
+		items = append(items, c)
+	}
+	return "[" + strings.Join(items, sep) + "]", nil
+}
+
+func coqStrList(l []string) (string, error) { return coqStrListSep(l, "; ") }
+
+// generate rewrites Generated.v from the repository source (constants, json tags, documented keys, validation rules).
 func generate(repo, out string) error {
-	return os.WriteFile(out, []byte("(* placeholder *)\n"), 0o644)
+	text, err := generateText(repo)
+	if err != nil {
+		return err
+	}
+	return os.WriteFile(out, []byte(text), 0o644)
+}
+
+func generateText(repo string) (string, error) {
+	abs, err := filepath.Abs(repo)
+	if err != nil {
+		return "", err
+	}
+	t, err := newTranslator(abs)
+	if err != nil {
+		return "", err
+	}
+	var b strings.Builder
+	b.WriteString("(* Generated.v — written by `harness gen` from the escalator source tree on every run.  DO NOT EDIT.\n")
+	b.WriteString("   Sources: pkg/cloudprovider/aws/aws.go, pkg/k8s/taint.go, pkg/controller/{node_group,scale_down}.go,\n")
+	b.WriteString("   docs/configuration/nodegroup.md.  Translator: harness/gen.go. *)\n")
+	b.WriteString("From Coq Require Import String ZArith List Bool.\n")
+	b.WriteString("From Esc Require Import Base Config.\n")
+	b.WriteString("Import ListNotations.\nOpen Scope string_scope.\nOpen Scope Z_scope.\n\n")
+
+	// ---- constants ----
+	type natc struct{ coq, rel, name string }
+	b.WriteString("(* ---- constants ---- *)\n")
+	for _, c := range []natc{{"gen_attach_batch", "pkg/cloudprovider/aws", "batchSize"}, {"gen_terminate_batch", "pkg/cloudprovider/aws", "terminateBatchSize"}} {
+		v, err := t.constOf(c.rel, c.name)
+		if err != nil {
+			return "", err
+		}
+		if v.ci == nil || v.ci.Sign() < 0 || v.ci.Cmp(big.NewInt(100000)) > 0 {
+			return "", fmt.Errorf("%s: constant %s is not an integer in [0, 100000] (the model uses it as a unary nat)", c.rel, c.name)
+		}
+		fmt.Fprintf(&b, "Definition %s_z : Z := %s.  (* %s.%s *)\n", c.coq, coqZ(v.ci), c.rel, c.name)
+		fmt.Fprintf(&b, "Definition %s : nat := Z.to_nat %s_z.\n", c.coq, c.coq)
+	}
+	{
+		v, err := t.constOf("pkg/cloudprovider/aws", "maxTerminateInstancesTries")
+		if err != nil {
+			return "", err
+		}
+		if v.ci == nil {
+			return "", fmt.Errorf("pkg/cloudprovider/aws: maxTerminateInstancesTries is not an integer constant")
+		}
+		fmt.Fprintf(&b, "Definition gen_max_tries : Z := %s.  (* pkg/cloudprovider/aws.maxTerminateInstancesTries *)\n", coqZ(v.ci))
+	}
+	type strc struct{ coq, rel, name string }
+	for _, c := range []strc{
+		{"gen_esc_key", "pkg/k8s", "ToBeRemovedByAutoscalerKey"},
+		{"gen_force_key", "pkg/k8s", "ToBeForceRemovedByAutoscalerKey"},
+		{"gen_nodelete_key", "pkg/controller", "NodeEscalatorIgnoreAnnotation"},
+		{"gen_default_group", "pkg/controller", "DefaultNodeGroup"},
+		{"gen_lifecycle_on_demand", "pkg/cloudprovider/aws", "LifecycleOnDemand"},
+		{"gen_lifecycle_spot", "pkg/cloudprovider/aws", "LifecycleSpot"},
+	} {
+		v, err := t.constOf(c.rel, c.name)
+		if err != nil {
+			return "", err
+		}
+		if v.cs == nil {
+			return "", fmt.Errorf("%s: %s is not a string constant", c.rel, c.name)
+		}
+		fmt.Fprintf(&b, "Definition %s : string := %s.  (* %s.%s *)\n", c.coq, v.coq, c.rel, c.name)
+	}
+	{
+		v, err := t.defaultTaintEffect()
+		if err != nil {
+			return "", err
+		}
+		fmt.Fprintf(&b, "Definition gen_default_taint_effect : string := %s.  (* pkg/k8s.AddToBeRemovedTaint, effect used when the option is empty *)\n", v.coq)
+	}
+
+	// ---- tags ----
+	b.WriteString("\n(* ---- struct tags: (Go field, json name, yaml name) ---- *)\n")
+	for _, x := range []struct{ coq, typ string }{{"gen_tag_table", optsType}, {"gen_aws_tag_table", awsOptsType}} {
+		rows, err := t.tags(x.typ)
+		if err != nil {
+			return "", err
+		}
+		fmt.Fprintf(&b, "Definition %s : list (string * (string * string)) := [\n", x.coq)
+		for i, r := range rows {
+			f, e1 := coqString(r.field)
+			j, e2 := coqString(r.json)
+			y, e3 := coqString(r.yaml)
+			for _, e := range []error{e1, e2, e3} {
+				if e != nil {
+					return "", e
+				}
+			}
+			sep := ";"
+			if i == len(rows)-1 {
+				sep = ""
+			}
+			fmt.Fprintf(&b, "  (%s, (%s, %s))%s\n", f, j, y, sep)
+		}
+		b.WriteString("].\n")
+	}
+	b.WriteString("Definition gen_json_tags : list string := map (fun r => fst (snd r)) gen_tag_table.\n")
+	b.WriteString("Definition gen_yaml_tags : list string := map (fun r => snd (snd r)) gen_tag_table.\n")
+	b.WriteString("Definition gen_aws_json_tags : list string := map (fun r => fst (snd r)) gen_aws_tag_table.\n")
+	b.WriteString("Definition gen_aws_yaml_tags : list string := map (fun r => snd (snd r)) gen_aws_tag_table.\n")
+
+	// ---- documented keys ----
+	top, aws, err := t.documentedKeys()
+	if err != nil {
+		return "", err
+	}
+	ts, err := coqStrList(top)
+	if err != nil {
+		return "", err
+	}
+	as, err := coqStrList(aws)
+	if err != nil {
+		return "", err
+	}
+	b.WriteString("\n(* ---- keys of the example block of docs/configuration/nodegroup.md ---- *)\n")
+	fmt.Fprintf(&b, "Definition gen_documented_keys : list string := %s.\n", ts)
+	fmt.Fprintf(&b, "Definition gen_documented_aws_keys : list string := %s.\n", as)
+
+	// ---- rules ----
+	rs, err := t.rules()
+	if err != nil {
+		return "", err
+	}
+	b.WriteString("\n(* ---- ValidateNodeGroup: one boolean per checkThat(cond, …); accepted = all true ---- *)\n")
+	b.WriteString("Definition gen_rules : list (cfg -> bool) := [\n")
+	for i, r := range rs {
+		sep := ";"
+		if i == len(rs)-1 {
+			sep = ""
+		}
+		fmt.Fprintf(&b, "  (fun c => %s)%s\n", r.coq, sep)
+	}
+	b.WriteString("].\n")
+	srcs, msgs := []string{}, []string{}
+	for _, r := range rs {
+		srcs = append(srcs, r.src)
+		msgs = append(msgs, r.msg)
+	}
+	ss, err := coqStrListSep(srcs, ";\n  ")
+	if err != nil {
+		return "", err
+	}
+	ms, err := coqStrListSep(msgs, ";\n  ")
+	if err != nil {
+		return "", err
+	}
+	fmt.Fprintf(&b, "(* the Go source of each condition and its message, in the same order (for reports) *)\nDefinition gen_rule_src : list string := %s.\n", ss)
+	fmt.Fprintf(&b, "Definition gen_rule_msg : list string := %s.\n", ms)
+	b.WriteString("Definition gen_validate (c : cfg) : bool := forallb (fun r => r c) gen_rules.\n")
+	return b.String(), nil
 }
